@@ -158,6 +158,13 @@ TEXT.update({
   "level": "Frame k is exactly the bytes of frame k for native 8/16-bit data (rows, columns 1-4 symbolic), for 1-bit data with ANY pixel count (rows, columns 1-17: the bytes holding bits [k*n,(k+1)*n)), and for encapsulated data with an offset table.",
   "note": "decode_pixel_data / decode_pixel_data_frame (1-bit expansion) are not a callable unit without the registry and file object: outside, and read as defective for pixel counts not divisible by 8 (DESIGN §2 C21)",
  },
+ "C27": {
+  "engine": "M",
+  "technique": "symbolic execution of the rustc MIR of read_pdu_from_wire and read_pdu over a transport whose read sizes are solver-chosen; z3 decides every path; replay with a chunking reader against the real receiver",
+  "level": "For streams of 2-3 small PDUs (release request / reply, abort, one-PDV P-DATA with symbolic context id, flags and payload) handed out in up to 3 (thorough: 4) reads at every possible split point - including all PDUs in one read "
+           "and a PDU split across reads - successive receives return exactly the PDUs sent, in order, the receive buffer ends empty and nothing is read twice.",
+  "note": "synchronous receiver only (the asynchronous one is not encoded); BufReader / BytesMut / Cursor / bytes::Buf accessors are contracts over byte lists; association PDUs with variable items are not in the streams",
+ },
  "C28": {
   "engine": "M",
   "technique": "symbolic execution of the rustc MIR of the acceptor's process_a_association_rq, its per-context negotiation closure, choose_ts, choose_supported and trim_uid; proposal and configuration are solver-chosen from a small universe of UIDs; z3 decides every path; replay against a real acceptor over loopback",
@@ -195,7 +202,6 @@ NOT_APPLICABLE = {
  "C19": "lossless transcoding goes through the global registry, a file object and image codecs (flate2, jpeg): no unit within reach; UncompressedAdapter composition not built",
  "C20": "RLE decode_frame on 2 pixels had no verdict in 900 s on Kani (Vec::resize, Cursor, io::copy, read_to_end); the Engine M vocabulary for these was not built",
  "C23": "serde_json::Value deserialisation (maps, strings of data-dependent length) exceeded 24 GB in SAT on Kani for one element; the dicom-json visitor side was not encoded on Engine M",
- "C27": "read_pdu_from_wire works on BufReader + BytesMut (pointer-rich, bytes::Bytes pointer tagging defeats CBMC's pointer model as measured under C25); not built",
  "C30": "release/abort conformance needs associations over a harness stream (hook) and a symbolic peer; not built; true two-peer interleavings are outside both engines",
  "C32": "file-system effect of a bin crate's TCP loop (sockets, threads, global registry, write_to_file); no callable unit to execute symbolically, Kani has no file-system model",
  "C33": "behaviour of the storescu binary over sockets with image transcoding; not encodable within reach of Kani or the MIR interpreter",
